@@ -1,7 +1,8 @@
 (* C05 -- Infinite screen evolves by exactly one row per step, for any history.
    Proved for EVERY numeric carrier (pure list reasoning), so also for the binary64 screen. *)
-From Coq Require Import List Arith.
-Require Import AOV.base.Num AOV.base.Cplx AOV.model.Mat AOV.model.InfScreen AOV.proofs.C05_proofs.
+From Coq Require Import List Arith Reals.
+Require Import AOV.base.Num AOV.base.NumR AOV.base.Cplx AOV.model.Mat AOV.model.InfScreen AOV.proofs.Mat_proofs AOV.proofs.C05_proofs
+               AOV.proofs.C05_stationary.
 Import ListNotations.
 
 (* shape invariant over any number of add-row steps (also when the working size exceeds the
@@ -33,6 +34,42 @@ Theorem C05_steps_keep_invariant : forall T (O : NumOps T) A B stencil (s : @scr
   wf_screen (step_vk O A B stencil s b) /\ wf_screen (step_fried O A B stencil s b).
 Proof. intros; split; [apply step_vk_wf|apply step_fried_wf]; assumption. Qed.
 Print Assumptions C05_steps_keep_invariant.
+
+(* ---- stationarity of the von Karman variant (second-moment algebra over R) ----
+   One step replaces the stencil vector Z (the first nc rows, row-major) by  Z' = F Z + Gm b  with F = [A ; selection of
+   the first nc-1 rows] and Gm = [B ; 0]: *)
+Theorem C05_step_updates_the_stencil_vector : forall T (O : NumOps T) (A B : @mat T) nx nc (s : @screen T) (b : list T),
+  wf_screen s -> nxs s = nx -> (0 < nc <= sl s)%nat -> length A = nx -> length B = nx ->
+  let Z := stencil_data O (data s) (vk_stencil nx nc) in
+  stencil_data O (data (step_vk O A B (vk_stencil nx nc) s b)) (vk_stencil nx nc)
+  = new_row_vk O A B Z b ++ firstn (nc * nx - nx) Z.
+Proof. intros T O. apply (@step_vk_stencil_update T O). Qed.
+
+(* hence covariances propagate as Sigma -> F Sigma F^T + Gm Gm^T (any finite weighted ensemble with unit, uncorrelated
+   innovations), and the THEORETICAL von Karman covariance of the stencil -- built by the model from the true pixel
+   separations -- is a fixed point of that recursion, for every size, pixel scale, r0, L0 and stencil depth, given only
+   the LAPACK contracts of C04 (an inverse of Cov_zz, the symmetric factorisation behind B): the statistics, once
+   those of the model, stay there however many rows are added.  (Translation invariance of the covariance blocks is
+   proved from the model's geometry, not assumed.) *)
+Theorem C05_von_karman_covariance_is_stationary : forall G K (nx nc : nat) (ps r0 L0 : R) (Inv u : list (list R)) (W : list R),
+  (0 < nx)%nat -> (0 < nc)%nat ->
+  let ns := (nc * nx)%nat in
+  let C := cov_mat (ROps G K) (all_positions (ROps G K) (vk_stencil nx nc) nx ps) r0 L0 in
+  let Czz := cov_zz C ns in let Cxz := cov_xz C ns in
+  let Czx := cov_zx C ns in let Cxx := cov_xx C ns in
+  wf_mat ns ns Inv -> mmul (ROps G K) Inv Czz = mident (ROps G K) ns ->
+  wf_mat nx nx u -> length W = nx -> Forall (fun w => (0 <= w)%R) W ->
+  mmul (ROps G K) (mmul (ROps G K) u (mdiag (ROps G K) W)) (transpose u) = BBt (ROps G K) Cxx (A_mat (ROps G K) Cxz Inv) Czx ->
+  let A := A_mat (ROps G K) Cxz Inv in
+  let B := B_mat (ROps G K) u W in
+  cov_step G K (Fmat A ns nx) (Gmat B ns nx) Czz = Czz /\
+  forall k, cov_iter G K (Fmat A ns nx) (Gmat B ns nx) Czz k = Czz.
+Proof. exact vk_model_stationary. Qed.
+Print Assumptions C05_von_karman_covariance_is_stationary.
+
+(* the hypotheses of the abstract fixed-point theorem are jointly satisfiable (an AR(1) instance), and the recursion is
+   not the identity map *)
+Example C05_stationarity_nonvacuous := fixed_point_ar1.
 
 Example C05_nonvacuous : wf_screen {| sl := 2; nxs := 3; req := 2; data := [[1;2;3];[4;5;6]] |}
   /\ exposed (add_row_state {| sl := 2; nxs := 3; req := 2; data := [[1;2;3];[4;5;6]] |} [7;8;9]) = [[7;8];[1;2]].
